@@ -174,11 +174,50 @@ pub fn check_patterns(ctx: &Ctx, tape: &[u8], stats: &mut Stats) -> Result<(), F
     Ok(())
 }
 
+/// Hand-written programs for accepted-but-goes-wrong shapes seen before (term holes, refutable binders at the
+/// value level, projection from a product whose last component is a record).
+const PROBES: &[(&str, &str)] = &[
+    ("term hole in a value", "( let code : Int64 = _ in ! ( process / exit ) code : OS )"),
+    ("term hole in a computation", "( do code <- ( _ : Ret Int64 ) ; ! ( process / exit ) code : OS )"),
+    ("refutable parameter of a pure function", "begin let B : VType = data | +F : Unit | +T : Unit end that ( let code : B -> Int64 = fn ( +T ( _ ) : B ) => 0 in ! ( process / exit ) ( code +F ( ) ) : OS ) end"),
+    ("refutable value-level let", "begin let B : VType = data | +F : Unit | +T : Unit end that ( let code : Int64 = ( let +T ( _ ) = ( +F ( ) : B ) in 5 ) in ! ( process / exit ) code : OS ) end"),
+    ("refutable let binder", "begin let B : VType = data | +F : Unit | +T : Unit end that ( let +T ( _ ) : B = +F ( ) in ! ( process / exit ) 1 : OS ) end"),
+    ("refutable do binder", "begin let B : VType = data | +F : Unit | +T : Unit end that ( do +T ( _ ) <- ( ret +F ( ) : Ret B ) ; ! ( process / exit ) 1 : OS ) end"),
+    ("projection from a record in last position", "( let r : ( a :: Int64 ) * ( p :: ( x :: Int64 ) * ( y :: Int64 ) ) = ( a = 1 , p = ( x = 2 , y = 3 ) ) in ! ( process / exit ) ( r / y ) : OS )"),
+];
+
+fn check_probe(ctx: &Ctx, name: &str, body: &str, stats: &mut Stats) -> Result<(), Fail> {
+    let text = format!("{}{body}\n", print::prelude(&ctx.repo_root));
+    let path = thread_dir(ctx).join("probe.zy");
+    std::fs::write(&path, &text).expect("write case");
+    let session = CompilerSession::default();
+    stats.eval();
+    match drive::analyze_executable(&session, &path) {
+        | Analyzed::Executable(exe, _) => {
+            let run = drive::run_executable(exe, b"", &[], 100_000);
+            if let RunEnd::Stuck { msg, file, line } = &run.end {
+                let short: String = msg.chars().take(48).collect();
+                return Err(Fail::new(
+                    format!("stuck[{short}]@{}", file.rsplit("/repo/").next().unwrap_or(file)),
+                    "progress, exit code, returned value, host I/O, or the division trap",
+                    format!("interpreter went wrong: `{msg}` at {file}:{line} after {} steps", run.steps),
+                )
+                .with(json!({"probe": name, "source": body})));
+            }
+            stats.count("probe:accepted-and-ran");
+            stats.nontrivial(hash_of(body));
+        }
+        | Analyzed::Panic(p) => return Err(Fail::new(format!("analysis-{}", p.signature()), "analysis to return", p.describe()).with(json!({"probe": name, "source": body}))),
+        | _ => stats.count("probe:not-accepted"),
+    }
+    Ok(())
+}
+
 pub fn run(ctx: &Ctx) -> Report {
     let mut report = Report::new(
         "streams, all filtered by the implementation's own accept verdict: (1) generated core programs; (2) pattern \
          rows over catalogue/random data types as match, comatch argument patterns, or fn/let/do binders, applied \
-         to every enumerated value; (3) every \
+         to every enumerated value; (3) records: nested named products and every field projection; (4) fixed probes of accepted-but-goes-wrong shapes seen before; (5) every \
          repository source that is an accepted executable and 1–2 token mutations of it that check still accepts \
          (analysed as an overlay at the original path); each accepted program runs on 6 stdin contents (empty, lines, \
          numbers incl. out-of-range, 70 kB line, invalid UTF-8, generated) × 2 argument vectors under a fuel bound; \
@@ -207,6 +246,13 @@ pub fn run(ctx: &Ctx) -> Report {
     let cases = ctx.tier.pick(1_500, 60_000);
     let r = run_tapes(ctx, "patterns", cases, 120, |tape, stats| check_patterns(ctx, tape, stats));
     report.absorb(r);
+    let cases = ctx.tier.pick(600, 20_000);
+    let r = run_tapes(ctx, "records", cases, 60, |tape, stats| crate::props::records::check_records(ctx, tape, stats, true));
+    report.absorb(r);
+    // listed findings and past defects as fixed probes (each must not go wrong if accepted)
+    let probes: Vec<(String, String)> = PROBES.iter().map(|(n, b)| (n.to_string(), b.to_string())).collect();
+    let r = run_items(ctx, "probes", probes, |(name, body), stats| check_probe(ctx, name, body, stats));
+    report.absorb(r);
     report.extra.insert("corpus_roots".into(), json!(corpus.len()));
     report.assume("execution is observed for a fuel-bounded prefix (200k steps generated, 50k corpus)");
     report
@@ -215,6 +261,15 @@ pub fn run(ctx: &Ctx) -> Report {
 pub fn replay(ctx: &Ctx, doc: &Value) -> Result<(), Fail> {
     let tape = unhex(doc["tape_hex"].as_str().unwrap_or(""));
     let mut stats = Stats::new();
+    if doc["stage"] == "records" {
+        return crate::props::records::replay(ctx, doc, true);
+    }
+    if doc["stage"] == "probes" {
+        for (n, b) in PROBES {
+            check_probe(ctx, n, b, &mut stats)?;
+        }
+        return Ok(());
+    }
     if doc["stage"] == "patterns" {
         return check_patterns(ctx, &tape, &mut stats);
     }
